@@ -12,8 +12,8 @@
      end                                   all indications were delivered, nothing is waiting *)
 EXTENDS Integers, Sequences, FiniteSets, Json, IOUtils, TLC
 Traces == ndJsonDeserialize(IOEnv.TRACE_FILE)
-VARIABLES open, txSeq, waiting, cur, nTx, accepted, elig, inds, closedAt, tid, l
-vars == <<open, txSeq, waiting, cur, nTx, accepted, elig, inds, closedAt, tid, l>>
+VARIABLES open, txSeq, waiting, cur, nTx, accepted, elig, inds, closedAt, acked, tid, l
+vars == <<open, txSeq, waiting, cur, nTx, accepted, elig, inds, closedAt, acked, tid, l>>
 U == INSTANCE DevMgmt WITH UDP <- TRUE, REPEAT <- 3, TIMEOUT <- 10000
 T == INSTANCE DevMgmt WITH UDP <- FALSE, REPEAT <- 3, TIMEOUT <- 10000
 Ev == Traces[tid].ev[l]
@@ -26,12 +26,12 @@ Step ==
      \/ Ev.ev = "tx_req" /\ IF IsU THEN U!TxReq(Ev.id, Ev.seq) ELSE T!TxReq(Ev.id, Ev.seq)
      \/ Ev.ev = "rx_ack" /\ IF IsU THEN U!RxAck(Ev.seq, Ev.st) ELSE T!RxAck(Ev.seq, Ev.st)
      \/ Ev.ev = "rx_cemi" /\ IF open THEN U!RxCemi(Ev.type, Key(Ev), Ev.val, Ev.err)      \* a closed connection passes nothing up
-                                      ELSE UNCHANGED <<open, txSeq, waiting, cur, nTx, accepted, elig, inds, closedAt>>
+                                      ELSE UNCHANGED <<open, txSeq, waiting, cur, nTx, accepted, elig, inds, closedAt, acked>>
      \/ Ev.ev = "ind_cb" /\ U!IndCb(Key(Ev))
      \/ Ev.ev = "close" /\ U!Close(Ev.t)
      \/ Ev.ev = "ret" /\ IF IsU THEN U!Ret(Ev.id, Ev.out, Ev.val, Ev.t) ELSE T!Ret(Ev.id, Ev.out, Ev.val, Ev.t)
      \/ Ev.ev = "reconnected" /\ U!Reconnected
-     \/ Ev.ev = "end" /\ inds = <<>> /\ waiting = {} /\ UNCHANGED <<open, txSeq, waiting, cur, nTx, accepted, elig, inds, closedAt>>
+     \/ Ev.ev = "end" /\ inds = <<>> /\ waiting = {} /\ UNCHANGED <<open, txSeq, waiting, cur, nTx, accepted, elig, inds, closedAt, acked>>
 TSpec == TInit /\ [][Step]_vars
 Mark == /\ TLCSet(2, [TLCGet(2) EXCEPT ![tid] = IF @ < l THEN l ELSE @])
         /\ (l = Len(Traces[tid].ev) + 1 => TLCSet(1, TLCGet(1) \cup {tid}))
